@@ -1,5 +1,5 @@
 # Function-level verification driver for Go functions under contract.
-import z3, json, os, subprocess, tempfile
+import z3, json, os, subprocess, tempfile, re
 from .values import *
 from .gostate import *
 from .goexec import GoExec, Frame, PanicEx, ReturnEx, PathEnd, simp_bool
@@ -92,6 +92,8 @@ class GoVerifier(GoExec, SpecMixin, CallsMixin, StmtsMixin):
                 else:
                     rnames.append('result' if i == 0 else 'result%d' % i)
                 i += 1
+        if c and c.get('results'):
+            rnames = c.get('results')[0].text.replace(',', ' ').split()
         # heap well-formedness of the receiver's / pointer parameters' fields
         for oid, v in list(st.env.items()):
             if isinstance(v, PtrV) and self.tt.kind(v.etid) == 'struct':
@@ -132,6 +134,63 @@ class GoVerifier(GoExec, SpecMixin, CallsMixin, StmtsMixin):
         fr.n_paths = len(exits)
         return fr
 
+    def load_axioms(self):
+        st = State()
+        for name, cl in self.spec.axioms:
+            self.axioms.append(self.sev_bool(SpecEnv(st, {}, None), cl.expr))
+
+    def spec_fresh(self, ty, name, st):
+        ty = ty.strip()
+        if ty in ('[]byte',):
+            a = fresh(name + '.arr', ArrII); o = fresh(name + '.off'); n = fresh(name + '.len')
+            v = SliceV([a], o, n, n, None, z3.BoolVal(False))
+            k = fresh('k!wf')
+            st.pc += [o >= 0, n >= 0, z3.ForAll([k], z3.And(z3.Select(a, k) >= 0, z3.Select(a, k) <= 255))]
+            return v
+        if ty == 'string':
+            a = fresh(name + '.arr', ArrII); o = fresh(name + '.off'); n = fresh(name + '.len')
+            k = fresh('k!wf')
+            st.pc += [o >= 0, n >= 0, z3.ForAll([k], z3.And(z3.Select(a, k) >= 0, z3.Select(a, k) <= 255))]
+            return StrV(a, o, n)
+        if ty == 'seq':
+            self.use_seq = True
+            return SeqV(fresh(name, ByteSeq))
+        if ty == 'bool':
+            return fresh(name, B)
+        if ty == 'byte':
+            v = fresh(name); st.pc += [v >= 0, v <= 255]; return v
+        return fresh(name)
+
+    def verify_lemma(self, name):
+        """Lemmas are proved by the same engine.  `induct b` = induction on len(b): the lemma instantiated at b[:len(b)-1]
+        is available as hypothesis (well-founded: the length decreases and is >= 0)."""
+        lem = self.spec.lemmas[name]
+        fr = Frame('lemma ' + name, None, lem)
+        self.frame = fr
+        st = State()
+        params = speclang.parse_params(lem.header)
+        binds = {pn: self.spec_fresh(pt, pn, st) for pn, pt in params}
+        env = SpecEnv(st, binds, None)
+        for r in lem.get('requires'):
+            st.pc.append(self.sev_bool(env, r.expr))
+        for ind in lem.get('induct'):
+            pn = ind.text.strip()
+            b = binds[pn]
+            small = SliceV(b.arrs, b.off, b.len - 1, b.len - 1, b.etid, b.isnil) if isinstance(b, SliceV) else StrV(b.arr, b.off, b.len - 1)
+            b2 = dict(binds); b2[pn] = small
+            env2 = SpecEnv(st, b2, None)
+            pre = [self.sev_bool(env2, r.expr) for r in lem.get('requires')]
+            post = [self.sev_bool(env2, e.expr) for e in lem.get('ensures')]
+            st.pc.append(z3.Implies(b.len > 0, z3.Implies(z3.And(pre) if pre else z3.BoolVal(True), z3.And(post))))
+            self.use_seq = True
+            st.pc.append(z3.Implies(b.len > 0, split_fact(b.arr, b.off, b.off + b.len - 1, b.off + b.len)))
+            st.pc += sl_facts(b.arr, b.off + b.len - 1, b.off + b.len) + sl_facts(b.arr, b.off, b.off + b.len) + sl_facts(b.arr, b.off, b.off + b.len - 1)
+        for h in lem.get('hint'):
+            self.run_hint(st, env, h.text, h)
+        for i, e in enumerate(lem.get('ensures')):
+            self.oblige(st, 'lemma-post#%d' % (i + 1), self.sev_bool(env, e.expr), src=e.line)
+        return fr
+
     def check_return(self, state, entry, c, rnames, vals, n):
         if c is None:
             return
@@ -142,6 +201,10 @@ class GoVerifier(GoExec, SpecMixin, CallsMixin, StmtsMixin):
             binds['result'] = vals[0]
         env = SpecEnv(state, binds, entry)
         env.binds_old = {}
+        for cl in c.get('hint'):
+            m = re.match(r'(\w+)\s*:\s*(.*)$', cl.text, re.S)
+            if m and m.group(1) == 'return':
+                self.run_hint(state, env, m.group(2), cl)
         for i, cl in enumerate(c.get('ensures')):
             self.oblige(state, 'post#%d' % (i + 1), self.sev_bool(env, cl.expr), src=cl.line)
         pcs = c.get('panics_if')
@@ -158,6 +221,9 @@ class GoVerifier(GoExec, SpecMixin, CallsMixin, StmtsMixin):
             self.oblige(state, 'panic-allowed(%s)' % info, cond)
         else:
             self.oblige(state, 'no-panic(%s)' % info, z3.BoolVal(False))
+
+def _lemma_methods():
+    pass
 
 def _has_quant(e):
     seen = set()
